@@ -54,12 +54,12 @@ theorem holdsB_iff (eqv : Val → Val → Bool) (c : Cond) (xs : List Val) : c.h
 
 /-! ## The main theorem -/
 
-/-- Well-formed configuration for a signature, as the property quantifies it, plus what goom itself rejects with an
-    explicit error: arities (`checkParams`, `ToExpr`), something registered at all, and — `checkParams` again — a *first* `When` must cover every parameter. -/
+/-- Well-formed configuration for a signature, as the property quantifies it: every condition has one expression per
+    parameter (a variadic tail may have any number, including none — also in a *first* `When`, repaired `checkParams`),
+    and something is registered at all. -/
 structure WFfull (sig : Sig) (cfg : Config) : Prop where
   conds_wf : ∀ p ∈ cfg.conds, p.1.WF sig
   nonempty : cfg.dflt = none → cfg.conds ≠ []
-  first_len : cfg.dflt = none → ∀ specs r rest, cfg.conds = (Cond.when specs, r) :: rest → sig.nIn ≤ specs.length
 
 /-- The excluded case (known finding K1): the configuration starts with `When()` without any argument.  Go passes a
     nil slice, `CreateWhen` takes it for "no condition" and the following `Return` becomes the default. -/
@@ -78,7 +78,6 @@ def invoke_spec_full : Prop :=
 private theorem wf_of_full (sig : Sig) (cfg : Config) (h : WFfull sig cfg) (hk : firstWhenHasArgs cfg = true) : cfg.WF sig := by
   refine ⟨h.conds_wf, h.nonempty, ?_⟩
   intro hd specs r rest hc
-  refine ⟨?_, h.first_len hd specs r rest hc⟩
   intro hs
   subst hs
   simp [firstWhenHasArgs, hd, hc] at hk
@@ -94,6 +93,45 @@ theorem invoke_spec (eqv : Val → Val → Bool) (sig : Sig) (cfg : Config) (h :
       ∀ (recv : Val) (xs : List Val), (w.invoke eqv (encodeCall sig recv xs)).map Prod.fst = specOut eqv sig cfg xs := by
   obtain ⟨w, hb, hi⟩ := build_inv sig cfg (wf_of_full sig cfg h hk)
   exact ⟨w, hb, fun recv xs => invoke_inv eqv sig cfg w hi _ xs (normalize_encode sig recv xs)⟩
+
+/-- The same for a **compiled call site**, which hands the callback a *nil* slice when no variadic argument is given
+    (`reflect.Value.Call` and `When.Eval` pass an empty non-nil one): the answer does not depend on it. -/
+theorem invoke_spec_direct (eqv : Val → Val → Bool) (sig : Sig) (cfg : Config) (h : WFfull sig cfg)
+    (hk : firstWhenHasArgs cfg = true) :
+    ∃ w, build sig (cfg.script sig) = .ok w ∧
+      ∀ (recv : Val) (xs : List Val), (w.invoke eqv (encodeCallDirect sig recv xs)).map Prod.fst = specOut eqv sig cfg xs := by
+  obtain ⟨w, hb, hi⟩ := build_inv sig cfg (wf_of_full sig cfg h hk)
+  exact ⟨w, hb, fun recv xs => invoke_inv eqv sig cfg w hi _ xs (normalize_encodeG true sig recv xs)⟩
+
+/-- `f(1)` compiled, on `f(a int, xs ...int)` stubbed with `Return(0).When(1).Return(5)`: the callback receives
+    `[1, nil-slice]` and the condition still matches; with a tail it does not -/
+example : (match build { nIn := 2, variadic := true, isMethod := false, numOut := 1 } [.ret 1 0, .when (some [.val 1]), .ret 1 5] with
+    | .ok w => [encodeCallDirect w.sig 0 [1] = [Arg.one 1, Arg.nilPack],
+                (w.invoke (· == ·) (encodeCallDirect w.sig 0 [1])).map Prod.fst = .ok (.ret 5),
+                (w.invoke (· == ·) (encodeCallDirect w.sig 0 [1, 1])).map Prod.fst = .ok (.ret 0)]
+    | .error _ => []) = [True, True, True] := by
+  simp [build, first, createWhen, newAlwaysMatch, W.alloc, W.steps, W.step, W.when, newDefaultMatch, toExprOk,
+    tupleResolves, Spec.resolves, W.ret, W.get, W.set, Matcher.addResult, bind, Except.bind, pure, Except.pure,
+    encodeCallDirect, encodeCallG, W.invoke, W.scan, Matcher.matchArgs, normalize, ones, evalTuple, Spec.eval,
+    Matcher.result, Except.map]
+
+/-- **Histories.** The `When` is live: after the configuration is built, registrations of further conditions and
+    calls (through reflect or compiled call sites, any receiver, any arguments) may alternate arbitrarily; every
+    registration is accepted and every call answers by exactly the conditions registered *before that call*, first
+    match in registration order, else default, else panic (`expected`).  In particular a call never freezes the list:
+    `Return(0); f(1); When(1).Return(5); f(1)` answers 0 then 5.  (Single-result conditions; cursors are C05.) -/
+theorem history_spec (eqv : Val → Val → Bool) (sig : Sig) (cfg : Config) (h : WFfull sig cfg)
+    (hk : firstWhenHasArgs cfg = true) :
+    ∃ w, build sig (cfg.script sig) = .ok w ∧
+      ∀ evs : List Ev, EvsWF sig evs → w.run eqv (evSteps sig evs) = expected eqv sig cfg.dflt cfg.conds evs := by
+  obtain ⟨w, hb, hi⟩ := build_inv sig cfg (wf_of_full sig cfg h hk)
+  exact ⟨w, hb, fun evs hwf => run_history eqv sig cfg.dflt evs cfg.conds w hi hwf⟩
+
+/-- the interleaved history of the doc comment, computed: 0, then (after `When(1).Return(5)`) 5, and 0 for another argument -/
+example : (match build { nIn := 1, variadic := false, isMethod := false, numOut := 1 } [.ret 1 0] with
+    | .ok w => w.run (· == ·) (evSteps { nIn := 1, variadic := false, isMethod := false, numOut := 1 }
+        [.call false 0 [1], .reg (.when [.val 1]) 5, .call false 0 [1], .call true 0 [2]])
+    | .error _ => []) = [.out (.ret 0), .ok, .ok, .out (.ret 5), .out (.ret 0)] := by rfl
 
 /-- The same through `When.Eval` (repaired: arguments shaped like a real call). -/
 theorem eval_spec (eqv : Val → Val → Bool) (sig : Sig) (cfg : Config) (h : WFfull sig cfg)
@@ -221,17 +259,18 @@ theorem variadic_elementwise (eqv : Val → Val → Bool) (sig : Sig)
 theorem variadic_call_shape (sig : Sig) (hv : sig.variadic = true) (hm : sig.isMethod = false) (recv : Val)
     (fixed tail : List Val) (hk : fixed.length = sig.nIn - 1) :
     encodeCall sig recv (fixed ++ tail) = fixed.map Arg.one ++ [Arg.pack tail] := by
-  simp [encodeCall, hv, hm, ← hk]
+  simp [encodeCall, encodeCallG, hv, hm, ← hk]
 
 /-- The other ways of writing an `In` alternative register the same matcher as the tuple form: a bare value or
-    expression for a non-variadic function (`In(3, 4)` on `f(int)`), a typed slice standing for the whole argument list
+    expression is the 1-tuple, for every signature (`In(3, 4)` on `f(int)`, and on `f(int, ...int)` meaning `f(3)` or
+    `f(4)`; repaired `InExpr.Resolve`), a typed slice standing for the whole argument list
     of a function whose only parameter is variadic (`In([]T{a, b}, []T{c})` on `f(...T)`). -/
 theorem in_alternative_forms (sig : Sig) (i : Nat) (rest : List Alt) :
-    (sig.variadic = false → ∀ x, resolveIn sig i (Alt.bare x :: rest) = resolveIn sig i (Alt.tuple [x] :: rest)) ∧
+    (∀ x, resolveIn sig i (Alt.bare x :: rest) = resolveIn sig i (Alt.tuple [x] :: rest)) ∧
     (sig.variadic = true → sig.nIn = 1 → ∀ vs, resolveIn sig i (Alt.slice vs :: rest) = resolveIn sig i (Alt.tuple (vs.map Spec.val) :: rest)) := by
   constructor
-  · intro hv x
-    simp [resolveIn, hv]
+  · intro x
+    simp [resolveIn]
   · intro hv h1 vs
     simp [resolveIn, hv, h1]
 
@@ -245,7 +284,7 @@ def exCfg : Config :=
               (.when [.val 1, .val 5], 3)] }
 
 example : WFfull exSig exCfg ∧ firstWhenHasArgs exCfg = true := by
-  refine ⟨⟨?_, by simp [exCfg], by simp [exCfg]⟩, rfl⟩
+  refine ⟨⟨?_, by simp [exCfg]⟩, rfl⟩
   intro p hp
   simp only [exCfg, List.mem_cons, List.not_mem_nil, or_false] at hp
   rcases hp with rfl | rfl | rfl <;> simp [Cond.WF, arityOk, exSig, tupleResolves, Spec.resolves, altsResolve1]
